@@ -504,3 +504,183 @@ def checkout_table(ctx, facts, label="Pool::checkout"):
                     ctx.check(got == want, key, good,
                               "Pool::checkout can end with (checkout [attempt, waiter, connection, token], registered, marker set) = %s; expected %s" % (sorted(map(str, got))[:2], sorted(map(str, want))), u.where())
     ctx.floor("%s|table-rows" % label, rows, 16, "scenarios evaluated")
+
+
+# ---------------------------------------------------------------------------------------------------------------------------
+# the pinned drop of a Checkout: what a cancelled request leaves behind
+
+def _drop_fn(facts):
+    for k, g in facts.fns.items():
+        if k.endswith("PinnedDrop>::drop::__drop_inner") and "checkout::Checkout<" in k:
+            return g
+    for k, g in facts.fns.items():
+        if k.endswith("PinnedDrop>::drop") and "checkout::Checkout<" in k:
+            return g
+    raise KeyError("pinned drop of Checkout not found")
+
+
+def evaluate_drop(facts, attempt, conn, lock):
+    fn = _drop_fn(facts)
+    if not hasattr(facts, "_drop_unit"):
+        OPAQUE = r"PoolRef::lock$|PoolInner::(push|cancel_connection)$|ConnectorMeta::new$|CheckoutId::new$"
+        pats = [re.compile(p) for p, _ in RAW]
+        facts._drop_unit = inline.inline(facts, fn, 4, lambda ck, raw: "::_::" not in ck and not re.search(OPAQUE, norm(ck)) and not any(rx.search(norm(ck)) for rx in pats), expand=True)
+    u = facts._drop_unit
+    adt = facts.adt("client::pool::checkout::Checkout")
+    fl = adt["variants"][0]["fields"]
+    CK, POOLSELF = 9200, 9300
+    fields = {}
+    for i, x in enumerate(fl):
+        t = x["ty"]
+        if "InnerCheckoutConnecting" in t:
+            fields[i] = attempt
+        elif t.endswith("Waiting") or "checkout::Waiting<" in t:
+            fields[i] = ("variant", "Idle", ((0, ("const", "RX")),))
+        elif t.startswith("std::option::Option<") and "Connection" in t:
+            fields[i] = NONE if conn is None else some(("const", conn))
+        elif t.endswith("key::Token"):
+            fields[i] = TOKEN
+        elif "PoolRef<" in t:
+            fields[i] = ("const", "POOLREF")
+        else:
+            fields[i] = ("const", "FIELD_" + x["name"])
+    st = {1: ("refmut", CK), CK: ("variant", "Checkout", tuple(sorted(fields.items()))), LOG: ("list", ())}
+
+    def locof(v):
+        """(location, path) a pinned / mutable reference designates."""
+        if v is None:
+            return None
+        if v[0] in ("refmut", "ref"):
+            return v[1], ()
+        if v[0] == "pref":
+            return v[1], tuple(v[2])
+        return None
+
+    def o_pin_same(ev, st_, t, site):
+        a = _arg(ev, st_, t, 0)
+        if a is None:
+            return False
+        # `&mut Pin<&mut T>` / `&Pin<..>`: one level down sits the pinned reference itself
+        inner = deref_value(st_, a, hops=1) if a[0] in ("ref", "refmut", "pref", "refval") else None
+        if inner is not None and inner[0] in ("refmut", "ref", "pref"):
+            return _set_dest(st_, t, inner)
+        return _set_dest(st_, t, a)
+
+    def o_project(ev, st_, t, site):
+        a = _arg(ev, st_, t, 0)
+        lp = locof(a)
+        v = deref_value(st_, a)
+        if lp is None or v is None or v[0] != "variant":
+            return False
+        loc, path = lp
+        return _set_dest(st_, t, ("variant", v[1] if v[1] != "Checkout" else "__CheckoutProjection", tuple((i, ("pref", loc, path + (i,))) for i, _ in v[2])))
+
+    def o_lock(ev, st_, t, site):
+        return _set_dest(st_, t, some(("variant", "PoolGuard", ((0, ("refmut", POOLSELF)),))) if lock else NONE)
+
+    def o_guard(ev, st_, t, site):
+        a = _arg(ev, st_, t, 0)
+        v = deref_value(st_, a, hops=1) if a is not None and a[0] in ("ref", "refmut", "pref", "refval") else a
+        if v is not None and v[0] == "variant" and v[1] == "PoolGuard":
+            v = dict(v[2]).get(0)
+        if v is not None and v[0] in ("refmut", "ref"):
+            return _set_dest(st_, t, v)
+        return False
+
+    def tok(v):
+        v = deref_value(st, v) if False else v
+        return "own" if v == TOKEN else "?"
+
+    def o_push(ev, st_, t, site):
+        c = deref_value(st_, _arg(ev, st_, t, 2))
+        _log(st_, "handback:%s/%s" % (_tag(c) or "?", "own" if deref_value(st_, _arg(ev, st_, t, 1)) == TOKEN else "?"))
+        return _set_dest(st_, t, tup())
+
+    def o_cancel(ev, st_, t, site):
+        _log(st_, "cancel:%s" % ("own" if deref_value(st_, _arg(ev, st_, t, 1)) == TOKEN else "?"))
+        return _set_dest(st_, t, tup())
+
+    def find_checkout(v, depth=8):
+        if v is None or depth == 0:
+            return None
+        if v[0] == "refval":
+            return find_checkout(v[1], depth - 1)
+        if v[0] == "variant":
+            if v[1] == "Checkout":
+                return v
+            for _, x in v[2]:
+                r = find_checkout(x, depth - 1)
+                if r is not None:
+                    return r
+        return None
+
+    def o_spawn(ev, st_, t, site):
+        fut = deref_value(st_, _arg(ev, st_, t, 0))
+        ck = find_checkout(fut)
+        if ck is None:
+            _log(st_, "spawn:?")
+        else:
+            d = describe_checkout(facts, ck)
+            pool_same = any(x == ("const", "POOLREF") for _, x in ck[2])
+            _log(st_, "spawn:%s%s/%s/%s/%s" % (d[0][0] if d[0] else "?", "+connector" if d[0] and d[0][1] else "", d[1][0] if d[1] else "?", d[3], "same-pool" if pool_same else "other-pool"))
+        return _set_dest(st_, t, ("const", "JOIN_HANDLE"))
+
+    def o_is_open(ev, st_, t, site):
+        tg = _tag(deref_value(st_, _arg(ev, st_, t, 0)))
+        if tg is None or not tg.startswith("conn:"):
+            return False
+        return _set_dest(st_, t, ("const", "false" if "closed" in tg else "true"))
+    raw = [(r"Pin.* as std::ops::Deref(Mut)?.*::deref(_mut)?$|Pin.*::(as_mut|get_mut|into_inner|get_unchecked_mut|into_ref|as_ref)$", o_pin_same),
+           (r"::_::<impl .*>::(project|project_ref)$", o_project), (r"PoolRef.*::lock$", o_lock),
+           (r"(PoolGuard|MutexGuard|ArcMutexGuard).* as std::ops::Deref(Mut)?.*::deref(_mut)?$", o_guard),
+           (r"PoolInner.*::push$", o_push), (r"PoolInner.*::cancel_connection$", o_cancel), (r"tokio::(task::)?spawn$|tokio::task::spawn::spawn$", o_spawn),
+           (r"PoolableConnection.*::is_open$", o_is_open), (r"ConnectorMeta::new$", o_const("META")), (r"CheckoutId::new$", o_const("ID")),
+           (r"Box.*::pin$", lambda ev, st_, t, site: _set_dest(st_, t, _deref(st_, _arg(ev, st_, t, 0))))] + RAW
+
+    def left(st_):
+        v = st_.get(CK)
+        return describe_checkout(facts, v) if v is not None else None
+    outs = AbsPaths(u, limit=40000, raw_oracles=raw, oracles=[INT_CMP, VALUE_EQ]).outcomes(state=st, extra_keys=(LOG, left))
+    return u, {(tuple(e[1] for e in o[2][0][1]) if o[2][0] is not None else None) for o in outs}
+
+
+def spec_drop(attempt_name, has_connector, conn, lock):
+    ev = []
+    if conn is not None and "closed" not in conn and lock:
+        ev.append("handback:%s/own" % conn)
+    if attempt_name == "ConnectingWithDelayDrop" and has_connector:
+        ev.append("spawn:ConnectingDelayed+connector/NoPool/own/same-pool")
+    elif attempt_name != "Waiting" and lock:
+        ev.append("cancel:own")
+    return tuple(ev)
+
+
+def drop_table(ctx, facts, label="Checkout::drop"):
+    """Dropping a checkout: a connection it took from the pool but never delivered goes back (if still open); an attempt that may
+    continue (delayed-drop state still owning its connector) is handed - connector, token, pool reference and all - to a
+    background task and its marker is left alone; any other owner of an attempt cancels its marker; a pure waiter does nothing."""
+    rows = 0
+    C = ("const", "CONNECTOR")
+    attempts = [("Waiting", ("variant", "Waiting", ()), False), ("Connected", ("variant", "Connected", ()), False),
+                ("Connecting", ("variant", "Connecting", ((0, C),)), True),
+                ("ConnectingWithDelayDrop", ("variant", "ConnectingWithDelayDrop", ((0, some(C)),)), True),
+                ("ConnectingWithDelayDrop", ("variant", "ConnectingWithDelayDrop", ((0, NONE),)), False),
+                ("ConnectingDelayed", ("variant", "ConnectingDelayed", ((0, C),)), True)]
+    for (name, val, hasc) in attempts:
+        for conn in (None, "conn:open", "conn:closed"):
+            for lock in (True, False):
+                key = "%s|table|attempt=%s%s|undelivered=%s|pool-%s" % (label, name, "(connector gone)" if name == "ConnectingWithDelayDrop" and not hasc else "", conn or "none", "alive" if lock else "gone")
+                try:
+                    u, got = evaluate_drop(facts, val, conn, lock)
+                except AbsPaths.Undecided as e:
+                    ctx.undecided(key, str(e))
+                    continue
+                except KeyError as e:
+                    return ctx.missing("%s|anchor" % label, str(e))
+                if rows == 0:
+                    ctx.touched(u)
+                rows += 1
+                want = spec_drop(name, hasc, conn, lock)
+                ctx.check(got == {want}, key, "dropping a checkout in state %s holding %s, pool %s: %s" % (name, conn or "no connection", "alive" if lock else "gone", list(want) or "nothing to do"),
+                          "dropping a checkout in state %s holding %s, pool %s: the drop can do %s, expected %s" % (name, conn or "no connection", "alive" if lock else "gone", sorted(map(str, got)), list(want)), u.where())
+    ctx.floor("%s|table-rows" % label, rows, 36, "scenarios evaluated")
